@@ -10,7 +10,7 @@ from penman.tree import Tree
 
 from pv.gen import graphs, models, trees
 from pv.gen.base import fy, pick
-from pv.harness import Hyp, Machine
+from pv.harness import Fuzz, Hyp, Machine
 from pv.props.common import fmt, short, tree_classes
 from pv.ref import graphm, interp
 from pv.ref.role import build_model, roles_for
@@ -429,4 +429,6 @@ def stages(tier):
         Hyp('marker-edits', _edit_cases, 5000, 300000),
         Hyp('arbitrary-lists', _arb_cases, 6000, 300000),
         Machine('edit-histories', _machine, (600, 12), (20000, 30)),
+        Fuzz('coverage-guided-marker-edits', 0, 1200000, structured=_edit_cases, max_len=2048),
+        Fuzz('coverage-guided-arbitrary-lists', 0, 1200000, structured=_arb_cases, max_len=2048),
     ]
